@@ -253,7 +253,7 @@ Hypothesis Hh : cmd_same h.
 Hypothesis Hg : forall a b, g a = g b -> a = b.
 
 Lemma is_endret_mp s : is_endret (mp_stmt s) = is_endret s.
-Proof. destruct s; try reflexivity. cbn. destruct (Hh c) as (-> & _). reflexivity. Qed.
+Proof. destruct s; try reflexivity. cbn. destruct (Hh c) as (-> & -> & _). reflexivity. Qed.
 
 Lemma scan_mp ss : forall i n, scan (mp_stmts ss) i n = scan ss i n.
 Proof.
